@@ -823,3 +823,16 @@ UNIT_META["U51"] = {"functions": ["log::Log::flush_one", "log::LogChange::flush_
 PROPS["C12"]["kani_units"] = list(PROPS["C12"]["kani_units"]) + ["U51"]
 PROPS["C03"]["kani_units"] = list(PROPS["C03"]["kani_units"]) + ["U51"]
 PROPS["C12"]["claim"] = PROPS["C12"]["claim"] + " Every byte of a record has reached the log file when the file is synced (Kani, bounded; std BufWriter is the real code): flush_to_file leaves nothing buffered after a record, or else flush_one unwraps (flushes) the writer before fdatasync -- reported as violated only if neither holds."
+
+# ---------------------------------------------------------------- U52 + enact fragments of the chunk tables (C13: apply parses as validate does)
+UNIT_META["value_record_walk"] = {"functions": ["table::ValueTable::validate_plan", "table::ValueTable::enact_plan (from the record-kind dispatch to the end; fragment)"],
+                                  "assumes": ["LogReader::read and the slice forms `log.read(&mut buf[a..b])` / `file.write_at(&buf[a..b], off)` become contracts that require the slice to be in range of the 32 KiB entry buffer (shape rewrites, sub-expressions verbatim)",
+                                              "the entry codec (tombstone / multipart markers, size word) is uninterpreted: decided on the real code by Kani (U5)",
+                                              "the growth loop in front of the enact fragment (TableFile::grow until capacity > index) is outside the fragment; its result (slot index lies inside the file) is a precondition",
+                                              "TableFile::write_at, AtomicU64::store, Header are stand-ins declared in the template"]}
+UNIT_META["log_mask_walk"]["functions"] = UNIT_META["log_mask_walk"]["functions"] + ["index::IndexTable::enact_plan (mask walk; fragment)", "ref_count::RefCountTable::enact_plan (mask walk; fragment)"]
+UNIT_META["log_mask_walk"]["assumes"] = UNIT_META["log_mask_walk"]["assumes"] + ["enact fragments: the CHUNK_LEN-byte window of the memory map (raw pointer arithmetic in the real function) is a parameter of the wrapper; `log.read(try_io!(Ok(&mut chunk[a..b])))` becomes a contract requiring a <= b <= chunk length (shape rewrite, sub-expressions verbatim)"]
+PROPS["C13"]["verus_units"] = list(PROPS["C13"]["verus_units"]) + ["value_record_walk"]
+PROPS["C13"]["claim"] = PROPS["C13"]["claim"] + " Apply parses as validate does (Verus, unbounded): for every record kind of a value table (header, tombstone, multipart part, sized entry) ValueTable::enact_plan consumes exactly the bytes validate_plan consumed, takes only in-range slices of the entry buffer and writes at most one slot -- given that validation accepted the record; IndexTable / RefCountTable::enact_plan consume 8 + ENTRY_BYTES*popcount(mask) bytes like their validation and skip functions, terminate, and write every slot inside the 512-byte chunk (for the ref-count table given the validated mask)."
+PROPS["C13"]["level_note"] = PROPS["C13"]["level_note"].replace("enact_plan is not run (mmap / 32 KiB-buffer cost); 'apply parses as validate does' is argued from the identical code shape, not proved.", "The parsing part of the three enact_plan functions is proved on verbatim fragments by Verus; locating / growing / mapping the file in front of those fragments (mmap, raw pointers) is not covered.")
+PROPS["C13"]["does_not_cover"] = ["CRC and record sequencing", "the file-locating part of enact_plan (open / grow / mmap, pointer arithmetic)", "file discovery / ordering / discarding in Log::open"]
